@@ -86,8 +86,9 @@ def s_text(s):
     return f"{s[1]} = {e_text(s[2])}" if s[0] == "def" else f".word {e_text(s[1])}"
 
 
-def prog_text(ss):
-    return "\n".join(s_text(s) for s in ss) + "\n"
+def prog_text(ss, link=False):
+    """link=True: '.link 1000' first, so '.word e' is evaluated as soon as it is met (otherwise it waits for the link base)"""
+    return (".link 1000\n" if link else "") + "\n".join(s_text(s) for s in ss) + "\n"
 
 
 def syms_of(e, acc):
@@ -240,23 +241,24 @@ def part_model(rep, rng, tier):
         moved.insert(j, moved.pop(i))
         moves.append((ss, i, j, moved))
         cases.append((kind + "+moved", moved))
-    jobs = [(([("t.mac", prog_text(ss))],), {"watchdog": 8}) for _, ss in cases]
+    cases = [(k, ss, False) for k, ss in cases] + [(k + "+link", ss, True) for k, ss in cases]
+    jobs = [(([("t.mac", prog_text(ss, lk))],), {"watchdog": 8}) for _, ss, lk in cases]
     outs = impl.pmap("assemble", jobs)
     terms, keep = [], []
-    for (kind, ss), o in zip(cases, outs):
+    for (kind, ss, lk), o in zip(cases, outs):
         rep.add_eval()
-        rep.count("model:" + kind.split("-")[0] + ":" + o["outcome"])
+        rep.count("model:" + kind.split("-")[0] + ("+link" if lk else "") + ":" + o["outcome"])
         t, py = obs_of(o)
         if t is None:
             rep.violate(f"model-case:{o['outcome']}:{(o.get('crash') or {}).get('frame')}",
-                        "a definition/use program ended in a crash or hang", {"files": [["t.mac", prog_text(ss)]], "kind": "single"},
+                        "a definition/use program ended in a crash or hang", {"files": [["t.mac", prog_text(ss, lk)]], "kind": "single"},
                         impl={"outcome": o["outcome"], "crash": o.get("crash")})
             continue
         if any(s[0] == "use" for s in ss) and len({s[1] for s in ss if s[0] == "def"}) >= 2:
-            rep.nontrivial(("model", prog_text(ss)))
+            rep.nontrivial(("model", prog_text(ss, lk)))
         terms.append(f"([{'; '.join(s_term(s) for s in ss)}], {t})")
-        keep.append((kind, ss, py))
-    rep.sample({"program": prog_text(keep[0][1]), "impl": keep[0][2]})
+        keep.append((kind, ss, py, lk))
+    rep.sample({"program": prog_text(keep[0][1], keep[0][3]), "impl": keep[0][2]})
     big = [k for k in range(len(terms)) if len(keep[k][1]) > 60]
     small = [k for k in range(len(terms)) if len(keep[k][1]) <= 60]
     shards = C.shard([terms[k] for k in small], 120) + [[terms[k]] for k in big]
@@ -264,8 +266,8 @@ def part_model(rep, rng, tier):
     codes = C.run_case_files(ID, "Run.C03Run Model.LazyEval", "", shards, judge_expr="map judge cases", opens=OPENS)
     flat = [c for sh in codes for c in sh]
     for k, code in zip(order, flat):
-        kind, ss, py = keep[k]
-        inp = {"kind": "single", "files": [["t.mac", prog_text(ss)]], "case": kind, "stmts_term": f"[{'; '.join(s_term(s) for s in ss)}]"}
+        kind, ss, py, lk = keep[k]
+        inp = {"kind": "single", "files": [["t.mac", prog_text(ss, lk)]], "case": kind, "stmts_term": f"[{'; '.join(s_term(s) for s in ss)}]"}
         if code & 1:
             rep.disagree("Model.LazyEval.lazy_run vs pdpy11 on a definition/use program", inp, impl=py)
         if code & 2:
